@@ -13,8 +13,11 @@ EXTENDS Naturals, Sequences, FiniteSets
 \* hostname parameter and a path parameter, matched directly / through an ignored trailing slash; statichost: a route
 \* below a static hostname whose handler routes another request by hand (Router.Lookup) while its own context is in use
 Shapes == {"direct", "tsr", "redirect", "noroute", "nomethod", "options", "lookup", "lookupclone", "clonewith", "clone",
-           "tsrclone", "hostdirect", "hosttsr", "statichost"}
-RouteShapes == {"direct", "tsr", "lookup", "lookupclone", "clonewith", "clone", "tsrclone", "hostdirect", "hosttsr", "statichost"}
+           "tsrclone", "hostdirect", "hosttsr", "statichost", "hijack", "txnlookup"}
+\* hijack: the handler takes over the connection (the next user of the context must find a working writer);
+\* txnlookup: the handler routes its request by hand through a read-only transaction (View + Txn.Lookup)
+RouteShapes == {"direct", "tsr", "lookup", "lookupclone", "clonewith", "clone", "tsrclone", "hostdirect", "hosttsr", "statichost",
+                "hijack", "txnlookup"}
 CloneShapes == {"lookupclone", "clone", "tsrclone"}
 HostParamShapes == {"hostdirect", "hosttsr"}
 
